@@ -64,14 +64,18 @@ PROPS = {
     },
     'C02': {
         'title': 'parsers are total on arbitrary bytes',
-        'verus': _VALDEC + _STATE + _DRIVE + _ADRIVE + _READER + _AREADER + _VALENC + [r'^verif_spec::scan_rest$'],
+        'verus': _VALDEC + _STATE + _DRIVE + _ADRIVE + _READER + _AREADER + _VALENC + [r'^verif_spec::scan_rest$',
+                  r'^attribute::IppAttribute::to_bytes$', r'^attribute::IppAttributes::to_bytes$', r'^request::IppRequestResponse::to_bytes$',
+                  r'^IppHeader::to_bytes$'],
         'kani': ['tables::table_value_tag', 'tables::table_delimiter_tag', 'tables::table_tag_none_outside'] + _K_RD_FAST,
         'kani_thorough': _K_RD_ALL,
         'assumptions': [_A_STREAM, _A_BYTES, _A_UTF8, _A_LOG, _A_W8, _A_TERM, _A_U16],
         'uncovered': ['stack exhaustion on deeply nested input (no stack model in Verus or Kani)',
-                      'Display / derived Clone / Drop of the returned value (format machinery and derive output are outside both tools)',
-                      'that every value produced by the parser satisfies the encoder precondition size_ok is not yet threaded '
-                      'through the parser state (strings are at most 3*65535 bytes by construction)'],
+                      'Display / derived Clone / Drop of the returned value (format machinery and derive output are outside both tools); '
+                      're-encoding IS covered: the parser state invariant `sizes` (every held value satisfies the encoder\'s only '
+                      'precondition, no usize overflow of string-length sums) is proved for every method and both drive loops, parse / '
+                      'parse_parts return groups satisfying groups_sizes, and IppAttributes::to_bytes / IppRequestResponse::to_bytes are '
+                      'proved panic-free under exactly that precondition'],
         'bounded': ['c02'],
         'design_ref': '§4 C02',
     },
